@@ -5,39 +5,25 @@ package dtls
 import (
 	"fmt"
 	"os"
+	"runtime"
 	"testing"
+	"testing/synctest"
 	"time"
 )
 
 // TestVF_Debug: ad-hoc scenario runner used while triaging (not registered as a check).
 func TestVF_Debug(t *testing.T) {
-	vfGetPKI()
 	if os.Getenv("VERIF_DEBUG") == "" {
 		t.Skip("debug only")
 	}
-	pki := vfGetPKI()
-	for _, sv := range []string{"12", "13", "dual"} {
-		n := vfNewNet()
-		n.SetOnSend(func(*vfNet, *vfWire) {})
-		co := vfCO(append(vfVerOpts("12"), WithRootCAs(pki.Pool), WithServerName(vfServerName))...)
-		so := vfSO(append(vfVerOpts(sv), WithCertificates(pki.Leaf("ecdsa", "server")))...)
-		p, err := vfNewPair(n, co, so)
-		if err != nil {
-			t.Fatal(err)
-		}
-		done := make(chan error, 1)
-		t0 := time.Now()
-		go func() {
-			_ = p.S.Conn.SetWriteDeadline(time.Now().Add(300 * time.Millisecond))
-			_, err := p.S.Conn.Write([]byte("x"))
-			done <- err
-		}()
-		select {
-		case err := <-done:
-			fmt.Printf("DEBUG server=%s: Write returned %v after %v\n", sv, err, time.Since(t0))
-		case <-time.After(3 * time.Second):
-			fmt.Printf("DEBUG server=%s: Write still blocked after 3s (deadline was 300ms)\n", sv)
-		}
-		p.Close()
-	}
+	synctest.Test(t, func(t *testing.T) {
+		ch := make(chan int)
+		go func() { <-ch }()
+		go func() { time.Sleep(time.Hour) }()
+		synctest.Wait()
+		buf := make([]byte, 1<<16)
+		n := runtime.Stack(buf, true)
+		fmt.Println(string(buf[:n]))
+		close(ch)
+	})
 }
